@@ -7,7 +7,9 @@ driver also evaluates, on the MODEL side,
              `Spec.checkCore .edgebreaker` against the input geometry (statement of `eb_roundtrip_*` evaluated),
   iso-ok     the decidable predicate `CTIso` (decoder corner table ≅ encoder corner table under the corner map
              recorded in `processed_connectivity_corners_`) — the hypothesis of the conditional theorems,
-  counts-ok  the point / face counts the encoder model reports equal those of the model decoder's result (C09);
+  counts-ok  the point / face counts the encoder model reports equal those of the model decoder's result (C09),
+  hyp-ok     every named hypothesis of the conditional theorems (`eb_value_block_conditional`, `eb_ctiso_sound`) holds
+             and the conclusion of `eb_value_block_conditional` evaluates to true on every value block;
 with `track=1` the counts reported by the real encoder have to equal the model's.
 
 `cases(rng, tier)` returns engine Cases; hook into C01.generate (and C09 as wanted)."""
@@ -121,6 +123,9 @@ def make_case(geom, toks, tags=()):
             return ("encoded-counts", f"the encoder reports {hp[2]} points / {hp[3]} faces, decoding its stream gives {counts} for `{case.op[:300]}`")
         if iso != "iso-ok":
             return ("ctiso:" + iso, f"the decoder's corner table is not isomorphic to the encoder's ({iso}) although the round trip holds for `{case.op[:300]}`")
+        hyp = mp[-1] if mp[-1].startswith("hyp-") else "hyp-missing"
+        if hyp != "hyp-ok":
+            return ("hypothesis:" + hyp[:60], f"a named hypothesis (or the evaluated conclusion) of the conditional round-trip theorems does not hold ({hyp}) for `{case.op[:300]}`")
         return None
 
     def mtag(mout):
@@ -133,7 +138,7 @@ def make_case(geom, toks, tags=()):
             return "ebenc:unsupported:" + (mp[1] if len(mp) > 1 else "")[:50]
         if mp[0] != "ok":
             return "ebenc:" + mp[0]
-        return "ebenc:ok:" + ":".join(mp[4:7])
+        return "ebenc:ok:" + ":".join(mp[4:7]) + (":" + mp[-1][:40] if mp[-1].startswith("hyp-") else "")
 
     c = Case(op, model=model, expect=expect, oracle=oracle, tags=("ebenc",) + tuple(tags))
     c.spec = spec
